@@ -8,9 +8,14 @@ use std::{
     ffi::OsString,
     fs::File,
     path::{Path, PathBuf},
-    sync::{Arc, RwLock},
+    sync::Arc,
     time::Duration,
 };
+
+#[cfg(jiff_verif)]
+use crate::verif::RwLock;
+#[cfg(not(jiff_verif))]
+use std::sync::RwLock;
 
 use crate::{
     error::{err, Error},
